@@ -455,10 +455,21 @@ def field_span(msg, field):
     return d.offset, d.offset + d.size
 
 
-def do_assign(msg, case: Case, in_force: bool, res: RunResult, who: str, accessor=None, prime=False):
+def do_assign(msg, case: Case, in_force: bool, res: RunResult, who: str, accessor=None, prime=False, twin=False):
     """perform one table case on msg and judge it"""
     C = classes()
     value = materialise(case.value)
+    twin_obj = twin_bytes = None
+    if twin and in_force and accessor is None:
+        # a second, independent message of the same type with exactly the same content, whose field was looked
+        # at a moment ago: nothing that is assigned to msg may end up there
+        try:
+            twin_obj = type(msg).from_buffer_copy(bytes(msg))
+            twin_bytes = bytes(twin_obj)
+            getattr(twin_obj, case.field)
+            res.probes["twin_message_touched"] += 1
+        except Exception:
+            twin_obj = None
     if prime and in_force and case.op in ("set", "slice") and case.field in ARRAYS and isinstance(value, list):
         # the very same list object was assigned (with the field's current, valid content) just before, and was
         # then changed in place into the value of this case
@@ -502,6 +513,10 @@ def do_assign(msg, case: Case, in_force: bool, res: RunResult, who: str, accesso
         raised = e
     after = bytes(msg)
     lo, hi = field_span(msg, case.field)
+    if twin_obj is not None and bytes(twin_obj) != twin_bytes:
+        res.add("C09", "other_message_changed", f"{who}: {case.label} changed another message of the same type "
+                                                f"(equal content, its field had been read just before)",
+                sig=f"other_message_changed:{case.field}")
     if not in_force:
         return raised is None
     res.probes["assign_" + case.op] += 1
@@ -638,7 +653,8 @@ class ValidationRun:
                     setattr(self, "_abort_" + who, True)
                     return
                 self.t(f"{who} depth={real_depth}: {case.label}")
-                do_assign(msg, case, in_force, res, who, prime=self.ch.flag("as.prime", 1, 4))
+                do_assign(msg, case, in_force, res, who, prime=self.ch.flag("as.prime", 1, 4),
+                          twin=self.ch.flag("as.twin", 1, 4))
             elif op[0] == "grab":
                 # keep an array accessor obtained now (possibly inside a block) for later use
                 acc = getattr(self, "_acc_" + who, None)
@@ -749,7 +765,7 @@ class ValidationRun:
                 fill(msg, f["case"])
                 case = table()[f["case"]]
                 self.t(f"single assignment: {case.label}")
-                do_assign(msg, case, True, res, "main", prime=bool(f.get("prime")))
+                do_assign(msg, case, True, res, "main", prime=bool(f.get("prime")), twin=bool(f.get("twin")))
                 res.enumerated.setdefault("table_cases", set()).add(f["case"])
             else:
                 ntasks = 1 + ch.pick("cfg.ntasks", 3)
@@ -825,4 +841,6 @@ def det_cases(tier):
     tbl = table()
     primed = [i for i in range(n) if tbl[i].op in ("set", "slice") and tbl[i].field in ARRAYS and isinstance(tbl[i].value, list)]
     out += [dict(case=i, prime=True) for i in (primed if tier == "thorough" else primed[::3])]
+    # every case once more next to a twin message of equal content whose field was just read
+    out += [dict(case=i, twin=True) for i in (range(n) if tier == "thorough" else range(1, n, 5))]
     return out
